@@ -54,7 +54,9 @@ func (cx *Ctx) runC01() {
 	}
 	cx.phase("C01: main batch")
 	// one fresh worker process per spec, so that a failure replays exactly
-	results := cx.simFresh.Run(jobs, nil)
+	batch := *cx.simFresh
+	batch.Deadline = time.Now().Add(cx.wallCap())
+	results := batch.Run(jobs, nil)
 	cx.phase("C01: analysing")
 	cx.slowest(results, 8)
 
